@@ -20,6 +20,10 @@ def all_programs(tier, size=None, only=None, must=None, key=None, tails=(True,),
                 compile(p.src, "<minipy>", "exec")
             except SyntaxError:
                 continue  # e.g. `global G` after a use of G: not a Python program
+            if "class-global" in p.forms and "global-read" in p.forms:
+                # f would read the global G after a nested class body rebound it during the call:
+                # the documented exception of C01 (ptera reads globals at entry)
+                continue
             out.append(p)
         _PROGS[k] = out
     return _PROGS[k]
